@@ -471,7 +471,7 @@ func (g *c03gen) untyped(d int) string {
 		for i := range args {
 			args[i] = sub()
 		}
-		return fmt.Sprintf("%s(%s)", g.pick("Fi", "Fs", "Ff", "Fv", "Fa", "Fb", "Mi", "Ms", "Mp", "Nope", "I", "Any", "Fx", "Fy", "Fn", "F2", "Mx"), strings.Join(args, ", "))
+		return fmt.Sprintf("%s(%s)", g.pick("Fi", "Fs", "Ff", "Fv", "Fa", "Fb", "Mi", "Ms", "Mp", "Nope", "I", "Any", "Fx", "Fy", "Fn", "F2", "Mx", "Nf", "Fe", "Fg"), strings.Join(args, ", "))
 	case 8:
 		n := g.rng.Intn(2)
 		args := make([]string, n)
@@ -700,7 +700,7 @@ func runC03(c *Ctx) {
 		ex  int
 	}{{"nil", 1}, {"Fs(1)", 0}, {"filter(Ints, {# > 1})", 0}, {"map(Ints, {# + 1})", 0}, {"MSI[1]", 0}, {"Ints[\"a\"]", 0},
 		{"My == 1", 0}, {"map(Ints, {nil})", 0}, {"Ff(+U64)", 0}, {"Fi(F64 + 1)", 0}, {"Arr[:]", 0}, {"len(Arr[1:2])", 0}, {"{(1): 2}", 0}, {"MSI[:]", 0}, {"F32 in MII", 0}, {"Any?.x", 1}, {"1 + 2", 2}, {"I8 + 1", 2}, {"F32 * 2", 3}, {"I", 3}, {"Str", 2}, {"B", 1}, {"I", 1},
-		{"Fx(1, \"a\")", 0}, {"Fx()", 0}, {"Fy(1)", 0}, {"Mx(1, 2)", 0}, {"Mx()", 0}, {"Fn()", 0}, {"F2()", 0}, {"Fx(Nope)", 0},
+		{"Nf(1, 2)", 0}, {"Nf()", 0}, {"Fe(1)", 0}, {"Fe()", 0}, {"Fg(Sg)", 0}, {"Fg(Zs, Sg)", 0}, {"Fg()", 0}, {"Fx(1, \"a\")", 0}, {"Fx()", 0}, {"Fy(1)", 0}, {"Mx(1, 2)", 0}, {"Mx()", 0}, {"Fn()", 0}, {"F2()", 0}, {"Fx(Nope)", 0},
 		{"B ? Zs : Sg", 0}, {"B ? Sg : Zs", 0}, {"B ? Sg : Sg", 0}, {"Sg.String()", 0}, {"Zs.String()", 0}, {"PPSt.X", 0}, {"PPSt?.Y", 0},
 		{"My + I", 0}, {"I + My", 0}, {"My * 2", 0}, {"2 * My", 0}, {"My - My", 0}, {"My % I", 0}, {"F64 + F64", 0},
 		{"Any in MSI", 0}, {"Any in MII", 0}, {"Any not in MSI", 0}, {"nil in MSI", 0}, {"I in MII", 0}, {"Str in MII", 0},
@@ -955,6 +955,15 @@ func c03Oracle(c *Ctx, cs c03Case) {
 		if cerr != nil && cs.goal != nil && cs.expect == 0 {
 			// a generated well-typed expression is rejected: the generator or the reference rules are off
 			c.R.Mismatch("c03/well-typed-rejected", cs.env.Name+" | "+cs.src, "accepted by the reference rules", firstLine16(cerr.Error()))
+		}
+		if cerr == nil && strings.Contains(cs.src, "(") {
+			// not "statically typed" in the property's sense (some type is an interface), but one failure is
+			// independent of every value: the VM's fast-call path asserting a function type the checker
+			// did not establish
+			if rv := compileRunOpts(cs.src, cs.env.Val, opts); !rv.ran && strings.Contains(rv.rerr, "not func(...interface {}) interface {}") {
+				violateKeyed16(c, Violation{What: "a call the checker marked as fast fails in the VM: the function is not exactly a func(...interface{}) interface{}", Key: "c03:fast-call-on-inexact-func-type", Input: in,
+					Expect: "the call succeeds", Got: rv.rerr})
+			}
 		}
 		return
 	}
